@@ -33,6 +33,25 @@ class Refused(Exception):
     pass
 
 
+class _TagCmYields(ast.NodeTransformer):
+    """In the G twin of a @contextmanager generator the generator's own `yield v` becomes `yield ("__cm__", v)` so that the
+    driver can tell it from the ticks."""
+
+    def visit_FunctionDef(self, node):
+        if getattr(self, "_in", False):
+            return node
+        self._in = True
+        self.generic_visit(node)
+        return node
+
+    def visit_Lambda(self, node):
+        return node
+
+    def visit_Yield(self, node):
+        v = node.value if node.value is not None else ast.Constant(None)
+        return ast.copy_location(ast.Yield(ast.Tuple([ast.Constant("__cm__"), v], ast.Load())), node)
+
+
 class _Tx(ast.NodeTransformer):
     def __init__(self, mode, qualname, line_offset):
         self.mode = mode
@@ -139,6 +158,7 @@ class _Tx(ast.NodeTransformer):
         body_src = node.body
         lock_body = self._block(copy.deepcopy(body_src))
         plain_body = self._block(copy.deepcopy(body_src))
+        cm_body = self._block(copy.deepcopy(body_src)) if self.mode == "G" else None
         assign = ast.Assign([ast.Name(cm, ast.Store())], expr)
         cmload = ast.Name(cm, ast.Load())
         if self.mode == "G":
@@ -151,7 +171,32 @@ class _Tx(ast.NodeTransformer):
         locked = [acq, ast.Try(body=lock_body, handlers=[], orelse=[], finalbody=[rel])]
         plain = ast.With(items=[ast.withitem(context_expr=cmload, optional_vars=item.optional_vars)], body=plain_body)
         test = ast.Call(ast.Name("_vp_is_lock_" + self.mode, ast.Load()), [cmload], [])
-        ifnode = ast.If(test=test, body=locked, orelse=[plain])
+        orelse = [plain]
+        if self.mode == "G":
+            # a twinned @contextmanager: enter / exit are driven step by step
+            #   v = yield from cm.enter()
+            #   try: body
+            #   except BaseException as e: if not (yield from cm.exit(e)): raise
+            #   else: yield from cm.exit(None)
+            exc = "_vp_exc_%d" % self.n
+            enter = ast.YieldFrom(ast.Call(ast.Attribute(cmload, "enter", ast.Load()), [], []))
+            if item.optional_vars is not None:
+                enter_stmt = ast.Assign([copy.deepcopy(item.optional_vars)], enter)
+            else:
+                enter_stmt = ast.Expr(enter)
+            exit_exc = ast.YieldFrom(ast.Call(ast.Attribute(cmload, "exit", ast.Load()), [ast.Name(exc, ast.Load())], []))
+            exit_ok = ast.Expr(ast.YieldFrom(ast.Call(ast.Attribute(cmload, "exit", ast.Load()), [ast.Constant(None)], [])))
+            flag = "_vp_exited_%d" % self.n
+            set_flag = ast.Assign([ast.Name(flag, ast.Store())], ast.Constant(True))
+            handler = ast.ExceptHandler(type=ast.Name("BaseException", ast.Load()), name=exc,
+                                        body=[set_flag, ast.If(test=ast.UnaryOp(ast.Not(), exit_exc), body=[ast.Raise()], orelse=[])])
+            # `finally` (not `else`): the body may leave through return / break / continue
+            cm_try = ast.Try(body=cm_body, handlers=[handler], orelse=[],
+                             finalbody=[ast.If(test=ast.UnaryOp(ast.Not(), ast.Name(flag, ast.Load())), body=[exit_ok], orelse=[])])
+            enter_stmt = [ast.Assign([ast.Name(flag, ast.Store())], ast.Constant(False)), enter_stmt]
+            cm_test = ast.Call(ast.Name("_vp_is_cmtwin_G", ast.Load()), [cmload], [])
+            orelse = [ast.If(test=cm_test, body=enter_stmt + [cm_try], orelse=[plain])]
+        ifnode = ast.If(test=test, body=locked, orelse=orelse)
         out = [assign, ifnode]
         for o in out:
             ast.copy_location(o, node)
@@ -178,17 +223,28 @@ def _source_of(fn):
     return textwrap.dedent(src), first
 
 
+def _is_contextmanager_function(fn):
+    w = getattr(fn, "__wrapped__", None)
+    return (isinstance(w, types.FunctionType) and inspect.isgeneratorfunction(w)
+            and getattr(fn, "__code__", None) is not None and fn.__code__.co_filename.endswith("contextlib.py"))
+
+
 def make_twin(fn, mode, qualname=None):
     """Compile the twin of plain function `fn` (unwrap methods / staticmethods first)."""
     if not isinstance(fn, types.FunctionType):
         raise Refused("not a plain function: %r" % (fn,))
+    is_cm = _is_contextmanager_function(fn)
+    if is_cm:
+        fn = fn.__wrapped__
     cls_cell = None
     if fn.__code__.co_freevars == ("__class__",):
         cls_cell = fn.__closure__[0].cell_contents  # method using super: zero-arg super() is rewritten below
     elif fn.__code__.co_freevars:
         raise Refused("closure (free variables %s)" % (fn.__code__.co_freevars,))
-    if fn.__code__.co_flags & (inspect.CO_GENERATOR | inspect.CO_COROUTINE | inspect.CO_ASYNC_GENERATOR):
-        raise Refused("generator/coroutine")
+    if fn.__code__.co_flags & (inspect.CO_COROUTINE | inspect.CO_ASYNC_GENERATOR):
+        raise Refused("coroutine")
+    if (fn.__code__.co_flags & inspect.CO_GENERATOR) and not is_cm:
+        raise Refused("generator")
     src, first = _source_of(fn)
     tree = ast.parse(src)
     fdef = tree.body[0]
@@ -196,7 +252,7 @@ def make_twin(fn, mode, qualname=None):
         raise Refused("source is not a def")
     for d in fdef.decorator_list:
         dn = ast.unparse(d)
-        if dn.split(".")[-1] not in ("staticmethod", "classmethod", "abstractmethod"):
+        if dn.split(".")[-1] not in ("staticmethod", "classmethod", "abstractmethod") + (("contextmanager",) if is_cm else ()):
             raise Refused("decorator %s would be dropped by the twin" % dn)
     qn = qualname or fn.__qualname__
     tx = _Tx(mode, qn, first - 1)
@@ -210,6 +266,8 @@ def make_twin(fn, mode, qualname=None):
                 n.args = [ast.Name("_vp_cls_" + twin_name, ast.Load()), ast.Name(first_arg, ast.Load())]
             elif isinstance(n, ast.Name) and n.id == "__class__":
                 n.id = "_vp_cls_" + twin_name
+    if is_cm and mode == "G":
+        fdef = _TagCmYields().visit(fdef)
     fdef = tx.visit(fdef)
     fdef.name = twin_name
     mod = ast.Module(body=[fdef], type_ignores=[])
@@ -227,6 +285,17 @@ def make_twin(fn, mode, qualname=None):
     ns = {}
     exec(code, g, ns)
     twin = ns[twin_name]
+    if is_cm:
+        if mode == "H":
+            import contextlib
+
+            twin = contextlib.contextmanager(twin)  # hooks are plain calls: the generator's own yield is untouched
+        else:
+            gen_fn = twin
+
+            def twin(*a, __g=gen_fn, **k):
+                return CmTwin(__g(*a, **k))
+            twin.__vp_cm__ = True
     twin.__vp_ticks__ = tx.ticks
     twin.__vp_of__ = fn
     if fn.__defaults__:
@@ -234,6 +303,61 @@ def make_twin(fn, mode, qualname=None):
     if fn.__kwdefaults__:
         twin.__kwdefaults__ = dict(fn.__kwdefaults__)
     return twin
+
+
+class CmTwin:
+    """Step-wise driver of the G twin of a @contextmanager generator."""
+
+    def __init__(self, g):
+        self.g = g
+
+    @staticmethod
+    def _is_cm_yield(t):
+        return isinstance(t, tuple) and len(t) == 2 and t[0] == "__cm__"
+
+    def enter(self):
+        while True:
+            try:
+                t = next(self.g)
+            except StopIteration:
+                raise RuntimeError("generator didn't yield")
+            if self._is_cm_yield(t):
+                return t[1]
+            yield t
+
+    def exit(self, exc):
+        try:
+            t = self.g.throw(exc) if exc is not None else next(self.g)
+        except StopIteration:
+            return exc is not None  # swallowed (only meaningful when an exception was passed in)
+        while True:
+            if self._is_cm_yield(t):
+                raise RuntimeError("generator didn't stop")
+            yield t
+            try:
+                t = next(self.g)
+            except StopIteration:
+                return exc is not None
+
+
+def register_module(mod, exclude=(), modes=("G", "H")):
+    """Every plain function and every method of every class DEFINED in module `mod`."""
+    done, refused = [], []
+    for name, obj in list(vars(mod).items()):
+        if name in exclude or name.startswith("_vp_"):
+            continue
+        if isinstance(obj, types.FunctionType) and (obj.__module__ == mod.__name__ or _is_contextmanager_function(obj)
+                                                     and obj.__wrapped__.__module__ == mod.__name__):
+            try:
+                register(obj, name, modes)
+                done.append(name)
+            except (Refused, OSError, SyntaxError) as e:
+                refused.append((name, str(e)))
+        elif isinstance(obj, type) and obj.__module__ == mod.__name__:
+            d, r = register_class(obj, None, exclude, modes)
+            done += d
+            refused += r
+    return done, refused
 
 
 def register(fn, qualname=None, modes=("G", "H")):
